@@ -171,7 +171,7 @@ func contractGhost(db *ContractDB, fn *ssa.Function, g string) bool {
 	if fn.Origin() != nil {
 		o = fn.Origin()
 	}
-	fc := db.Funcs[o.RelString(nil)]
+	fc := db.Funcs[normKey(o.RelString(nil))]
 	return fc != nil && fc.hasGhost(g)
 }
 
@@ -718,9 +718,9 @@ func (c *ownCtx) closureParamOwn(p *ssa.Parameter) (Own, string, bool) {
 
 func calleeKey(callee *ssa.Function) string {
 	if callee.Origin() != nil {
-		return callee.Origin().RelString(nil)
+		return normKey(callee.Origin().RelString(nil))
 	}
-	return callee.RelString(nil)
+	return normKey(callee.RelString(nil))
 }
 
 func (c *ownCtx) callOwn(call *ssa.Call, idx int) (Own, string) {
